@@ -83,7 +83,7 @@ func destructiveOpen(call *ssa.Call) (int, string, bool) {
 func runC09(c *Ctx) {
 	r := c.R
 	r.Rule("O-1", "no in-place rewrite: no data-file path (Config.PersonalDBPath / GetPersonalDatabasePath, SearchHistory.FilePath / DefaultHistoryPath) reaches the path argument of os.WriteFile, os.Create, os.Truncate or a writing os.OpenFile anywhere in the module")
-	r.Rule("O-2", "replace protocol: both data paths reach the destination of os.Rename; in the renaming function the temporary is created in filepath.Dir(dest), Write and Close on it dominate Rename, each error blocks the later steps, and nil is returned only after Rename succeeded; the two writers pass (data path, marshalled bytes) and propagate the error")
+	r.Rule("O-2", "replace protocol: both data paths reach the destination of os.Rename; in the renaming function the temporary is created in filepath.Dir(dest), Write and Close on it dominate Rename, each error blocks the later steps and is what the caller gets back (not the error of a later call, which may be nil), and nil is returned only after Rename succeeded; the two writers pass (data path, marshalled bytes) and propagate the error")
 	r.Rule("O-3", "failure is reported: saveToPersonalDatabase propagates the write error; after a failed save both save commands print only messages carrying the error and return")
 
 	tr := pathTracer(c)
